@@ -353,6 +353,7 @@ func checkC17(w *World, r *Report) {
 	r.Explanation = "Decides the error-discipline clause of C17 for every template structure and every failing invocation: (R17.1) in every function reachable from render roots or Engine.Load, the error result of every call that can carry a callback, loader or nested-template failure reaches a Return of the enclosing function (through phis, named results, %w/NewError/Err-field/errors.Join wrapping); on the non-nil edge of each nil test of that error no path returns a nil error unless the error was classified with errors.Is/As first; and the cause is not reduced to text on its only way out; (R17.2) the not-found edge of every filter/function/test name lookup never reaches a nil-error return; (R17.3) EnhancedError.Unwrap returns the wrapped cause and the string-returning top-level renders return \"\" whenever they return a non-nil error. (R17.4) a call expression is never answered by a tolerant accessor (a function that returns nil, nil for what it does not find). Not decided: errors turned into values inside user callbacks; the documented tolerances (undefined variables/attributes)."
 	r.Explanation += " Rules added in later rounds: (R17.5) a node that names a filter applies it before any successful return. (R17.1) an error in a loop is tested or consumed before the call is made again; collector objects are followed. (R17.6) imports render the library on every successful path."
 	r.Explanation += " Round 9: (R17.7) deferred functions do not overwrite an error already set."
+	r.Explanation += " Round 11: (R17.1) only a not-found classification may end a failure."
 	r.RuleText = "obligation = one propagating call site (R17.1), one name lookup (R17.2), one top-level return (R17.3); non-trivial = all R17.1/R17.2 sites (each needs value flow + path search)"
 	r.Trusted = []string{"fmt.Errorf %w, errors.Join keep the cause reachable", "call graph over-approximation"}
 
